@@ -51,6 +51,7 @@ def gen_world(rng, npels=None, fault_rate=None):
         targets += [("O", 0x2000)] * 2           # BMC built-in formats (json / text / cbor / custom)
     npels = npels or rng.randint(2, 5)
     rcs = ["%04X" % rng.randrange(0x10000) for _ in range(2)]       # reason codes shared by the whole plan
+    tfam = {v: common.trace_family(rng, v) for v in (1, 2)}          # one trace-hash family per drawer type and plan
     pels = []
     eids = set()
     for i in range(npels):
@@ -74,7 +75,8 @@ def gen_world(rng, npels=None, fault_rate=None):
                     sec["subtype"] = rng.choice([72, 73, 84, 84])
                     sec["ver"] = rng.choice([1, 1, 2, 2, 3, 0])
                 if sec["subtype"] == 84 and rng.random() < 0.8:
-                    sec["payload"] = common.gen_trace_payload(rng, sec["ver"] if sec["ver"] in (1, 2) else 1)
+                    v = sec["ver"] if sec["ver"] in (1, 2) else 1
+                    sec["payload"] = common.gen_trace_payload(rng, v, tfam[v])
                 elif sec["subtype"] == 73 and rng.random() < 0.8:
                     sec["payload"] = common.gen_ilog_payload(rng)
         pels.append({"name": common.bmc_name(r), "recipe": r})
